@@ -45,7 +45,7 @@ PARTIAL = ['no shape theorem (decided per explored case by the verified checker)
            'BiproportionalEvaluator by C07, open-list evaluators by C16, seeded random selectors by C18']
 TRUSTED = []
 LISTED = {'plurality', 'highest_averages', 'largest_remainder', 'transferable_vote', 'schulze', 'copeland', 'minimax', 'positional', 'approval', 'score'}
-SUM_EXACT = ('ha_', 'lr_', 'stv_dist', 'allocated_score_dist')       # distributors that must hand out exactly n seats
+SUM_EXACT = ('ha_', 'lr_', 'stv_dist', 'allocated_score_dist', 'tiebreak_')       # distributors that must hand out exactly n seats
 
 
 _REG = None
@@ -77,6 +77,13 @@ def registry():
                        ('open_list_quota', lambda: _WithList(ol.ThresholdOpenList(quota_function='droop', quota_fraction=_F(1, 2))))):
             _REG[nm] = dict(name=nm, vtype='simple', kind='sel', make=mk, family=None, scale_free=True, seats=True, max_k=None, det=True,
                             needs=None, exact=True, min_cands=1)
+        # tie breaking around distributors: a tie over several seats must come back as that many seats
+        import votelib.evaluate.proportional as prop, votelib.evaluate.auxiliary as aux
+        for nm, mk in (('tiebreak_dhondt', lambda: core.TieBreaking(prop.HighestAverages('d_hondt'), aux.Sortitor(seed=3))),
+                       ('tiebreak_lr_hare', lambda: core.TieBreaking(prop.LargestRemainder('hare'), aux.Sortitor(seed=3))),
+                       ('tiebreak_plurality', lambda: core.TieBreaking(core.Plurality(), aux.Sortitor(seed=3)))):
+            _REG[nm] = dict(name=nm, vtype='simple', kind=('sel' if 'plurality' in nm else 'dist'), make=mk, family=None, scale_free=True, seats=True,
+                            max_k=None, det=True, needs=None, exact=True, min_cands=1)
     return _REG
 
 
@@ -158,9 +165,9 @@ def enc_sel(val):
     return sx([list(x) if isinstance(x, tuple) else x for x in val])
 
 
-def sweep(ctx, stream, count, rng, gen=gen_random):
+def sweep(ctx, stream, count, rng, gen=gen_random, only=None, seats_fn=None):
     reg = registry()
-    names = list(reg)
+    names = list(only) if only else list(reg)
     pending = []        # (case, cands, n, val)
     bad = n_cases = 0
     for _ in range(count):
@@ -172,7 +179,7 @@ def sweep(ctx, stream, count, rng, gen=gen_random):
         present = evalreg.present_candidates(e, prof)
         if len(present) < e['min_cands']:
             continue
-        seats = rng.randint(1, max(1, len(present)))
+        seats = seats_fn(rng, len(present)) if seats_fn else rng.randint(1, max(1, len(present)))
         ctx.evaluations += 1
         n_cases += 1
         ctx.dist['stream:' + stream] += 1
@@ -600,6 +607,16 @@ def explore(ctx, widen=1):
     model_shape(ctx, 'model-shape', ctx.n(300, 3000), rng)
     sweep(ctx, 'sweep', ctx.n(5000, 80000) * widen, rng)
     sweep(ctx, 'sym-sweep', ctx.n(5000, 60000) * widen, rng, gen_symmetric)
+    # tie breaking around distributors / plurality on level vote totals (three and more parties level for the last two and more seats)
+    def gen_level(r, e):
+        m = r.randint(3, 6)
+        return [[k, r.choice([6, 6, 6, 12, 12, 7])] for k in range(1, m + 1)]
+    sweep(ctx, 'tiebreak-level', ctx.n(600, 8000) * widen, rng, gen=gen_level, only=['tiebreak_dhondt', 'tiebreak_lr_hare', 'tiebreak_plurality'])
+    # majority judgment on the level-median profiles of C12 (equal medians across the cut, several candidates separating in
+    # the same removal round), three and more seats preferred: the recursive tie-break must return exactly n names
+    import props.c12 as c12
+    sweep(ctx, 'mj-level', ctx.n(1500, 20000) * widen, rng, gen=lambda r, e: next(c12.gen_mj_seats(r, 1))['votes'],
+          only=['mj_default', 'mj_plus'], seats_fn=lambda r, m: min(m, r.choice([3, 3, 4, 2, r.randint(1, max(1, m))])))
     cases = list(gen_baldwin(rng, ctx.n(4000, 60000) * widen))
     for c in cases:
         ctx.dist['baldwin:' + c['_style']] += 1
